@@ -94,3 +94,14 @@ Theorem C40_raft_committed_prefix_stable : forall n g1 g2, reachable n g1 -> gst
   forall a, sms_pair (g_st g1 a) (g_st g2 a).
 Proof. exact committed_prefix_stable. Qed.
 Print Assumptions C40_raft_committed_prefix_stable.
+
+(* the leader's commit rule: counting replicas advances the commit index only to an entry of the
+   leader's current term that a majority acknowledged *)
+Theorem C40_raft_leader_commit_rule : forall others maj s,
+  commit (do_commit others maj s) <> commit s ->
+  rrole s = Leader /\ commit s < commit (do_commit others maj s) /\
+  exists e, nth_error (log s) (N.to_nat (commit (do_commit others maj s)) - 1) = Some e /\
+            e_term e = term s /\
+            maj <= acks others (match_index s) (commit (do_commit others maj s)).
+Proof. exact leader_commit_rule. Qed.
+Print Assumptions C40_raft_leader_commit_rule.
